@@ -205,6 +205,33 @@ def translate_distinct():
             'Definition select_distinct (distinct : option bool) (has_order tdistinct : bool) : bool :=\n%s.\n' % (body[1].lineno, text))
 
 
+def translate_process_lambda():
+    """Query._process_lambda: how the filter number that keys the captured values of a lambda step -- (filter_num, src, code_key) --
+    advances from one step to the next.  Scanned, fail closed: the assignment `new_filter_num = query._filter_num + 1`, its use in
+    every extract_vars call, and what the final `query._clone(...)` passes on."""
+    fdef, src, lineno = load_function('pony/orm/core.py', 'Query._process_lambda')
+    selfname = fdef.args.args[0].arg
+    assigns = [n for n in ast.walk(fdef) if isinstance(n, ast.Assign) and len(n.targets) == 1 and isinstance(n.targets[0], ast.Name)
+               and n.targets[0].id == 'new_filter_num']
+    if len(assigns) != 1 or ast.unparse(assigns[0].value) != '%s._filter_num + 1' % selfname:
+        raise TranslateError('_process_lambda: new_filter_num is no longer `%s._filter_num + 1`' % selfname)
+    calls = [n for n in ast.walk(fdef) if isinstance(n, ast.Call) and isinstance(n.func, ast.Name) and n.func.id == 'extract_vars']
+    if not calls or any(len(c.args) < 2 or ast.unparse(c.args[1]) != 'new_filter_num' for c in calls):
+        raise TranslateError('_process_lambda: extract_vars is not called with new_filter_num')
+    last = fdef.body[-1]
+    if not (isinstance(last, ast.Return) and isinstance(last.value, ast.Call) and ast.unparse(last.value.func) == '%s._clone' % selfname and not last.value.args):
+        raise TranslateError('_process_lambda does not end in `return %s._clone(...)`' % selfname)
+    kws = {k.arg: ast.unparse(k.value) for k in last.value.keywords}
+    if kws.get('_vars') != 'new_vars' or kws.get('_translator') != 'new_translator':
+        raise TranslateError('_process_lambda: the clone no longer receives new_vars / new_translator')
+    if '_filter_num' not in kws: passes = 'false'
+    elif kws['_filter_num'] == 'new_filter_num': passes = 'true'
+    else: raise TranslateError('_process_lambda: unexpected _filter_num=%s' % kws['_filter_num'])
+    return ('(* pony/orm/core.py:%d Query._process_lambda: the filter number of the next lambda step, and whether the returned query carries it *)\n'
+            'Definition next_filter_num (n : nat) : nat := (n + 1)%%nat.\n'
+            'Definition clone_passes_filter_num : bool := %s.\n' % (lineno, passes))
+
+
 def generate():
     check_fetch_signature()
     out = ['(* GENERATED by tools/py2coq/querywindow.py from /repo on every run -- do not edit *)',
@@ -215,6 +242,7 @@ def generate():
     out.append(translate_method('Query.limit', 'query_limit', {'limit': 'option Z', 'offset': 'option Z'}, '(limit offset : option Z)'))
     out.append(translate_method('Query.fetch', 'query_fetch', {'limit': 'option Z', 'offset': 'option Z'}, '(limit offset : option Z)'))
     out.append(translate_distinct())
+    out.append(translate_process_lambda())
     return '\n'.join(out)
 
 
